@@ -30,7 +30,7 @@ Step ==
                             [] e.ev = "closed"  -> [pending EXCEPT ![e.who] = FALSE]
                             \* an answerer's changes may have been taken up by the sections it answered:
                             \* whether a negotiation is still needed is not known to this specification
-                            [] e.ev = "completing" /\ e.st = "have-remote-offer" -> [pending EXCEPT ![e.who] = FALSE]
+                            [] e.ev = "completing" /\ e.st \in {"have-remote-offer", "have-local-pranswer"} -> [pending EXCEPT ![e.who] = FALSE]
                             [] OTHER -> pending
             /\ fires' = CASE e.ev = "fire" -> [fires EXCEPT ![e.who] = @ + 1]
                           [] e.ev = "completing" -> [fires EXCEPT ![e.who] = 0]
